@@ -381,7 +381,18 @@ impl Prop for C11 {
                 Case11 { ast: AstCase { node, flags: f.into_iter().collect(), inputs: Inputs::Raw(inputs) }, swap_in, swap_pat }
             })
             .boxed();
-        vec![Part { name: "case".into(), strategy: s, cases: tier.pick(200_000, 4_000_000) }]
+        let sc = (super::c01::scaled_part(&cfg(), "iims"), any::<u32>(), any::<u32>())
+            .prop_map(|(mut ast, m_in, swap_pat)| {
+                let mut f: Vec<char> = ast.flags.chars().collect();
+                f.dedup();
+                ast.flags = f.into_iter().collect();
+                Case11 { ast, swap_in: vec![m_in; 8], swap_pat }
+            })
+            .boxed();
+        vec![
+            Part { name: "case".into(), strategy: s, cases: tier.pick(200_000, 4_000_000) },
+            Part { name: "scaled".into(), strategy: sc, cases: tier.pick(20_000, 300_000) },
+        ]
     }
     fn enumerations(&self, tier: Tier) -> Vec<(String, String, Box<dyn Iterator<Item = Case11> + Send>)> {
         // every small pattern over a letter in both cases, another letter, a digit and two classes, with and without i,
